@@ -54,7 +54,7 @@ SameResult(T, F) ==
 
 FaultClauses(s, e, t, f) ==
     LET S == s.st  T == t.st  F == f.st
-        cs == AllClauses(s, e, t)
+        cs == AllClauses(s, e, t)     \* evaluated in full only when Want contains "ALL"
     IN
     <<
     Cl("C16_NoCrash", {"C16"}, TRUE, e.res \in {"ok", "refused"}),
